@@ -91,8 +91,10 @@ func H_C20_kinds() {
 // register, 1 and 1.5 and 2.5 are different ones, large and fractional
 // numeric keys keep their full text in the caller's map.
 func H_C20_keys() {
-	exprs := []string{"1", "1.5", "'1'", "2.5", "1000000", "'k'", "0.25"}
-	texts := []string{"1", "1.5", "1", "2.5", "1e+06", "k", "0.25"}
+	// (keys that differ in letter case, by a trailing blank, or only under
+	// Unicode case folding are different registers)
+	exprs := []string{"1", "1.5", "'1'", "2.5", "1000000", "'k'", "0.25", "'K'", "'k '", "'\u212a'", "'1E+06'"}
+	texts := []string{"1", "1.5", "1", "2.5", "1e+06", "k", "0.25", "K", "k ", "\u212a", "1E+06"}
 	k1 := verif.Choose("k1", len(exprs))
 	k2 := verif.Choose("k2", len(exprs))
 	k3 := verif.Choose("k3", len(exprs))
